@@ -122,6 +122,8 @@ def run(tier, seed):
             coeff = rng.choice(["2", "3", "10", "0.5", "2.5", "1e3", "3/2", "1/4"])
             wantf *= float(Fraction(coeff)) if "e" not in coeff else float(coeff)
             parts.append(coeff)
+        arith = []  # the same compound built by unit arithmetic (no coefficient)
+        wantf_units = 1.0
         for _ in range(nf):
             b = rng.choice(lutkeys)
             p = rng.choice(pre_keys) if (LUT[b][4] and rng.random() < 0.4) else ""
@@ -130,10 +132,12 @@ def run(tier, seed):
             sc = (PRE[p][0] if p else 1.0) * LUT[b][0]
             try:
                 wantf *= sc ** float(e)
+                wantf_units *= sc ** float(e)
             except OverflowError:
-                wantf = float("inf")
+                wantf = wantf_units = float("inf")
             wdim *= LUT[b][1] ** sympy.Rational(e.numerator, e.denominator)
             name = p + b
+            arith.append((name, e))
             style = rng.random()
             if e == 1 and style < 0.5:
                 parts.append(name)
@@ -168,6 +172,23 @@ def run(tier, seed):
         if not (math.isclose(u.base_value, wantf, rel_tol=1e-11) and u.dimensions == wdim):
             chk.fail("compound-scale", f"Unit({s!r}): scale {u.base_value!r} / dimension differ from the product of the constituents ({wantf!r})",
                      {"python": snippet(f"u = Unit({s!r})\nassert math.isclose(u.base_value, {wantf!r}, rel_tol=1e-11), (u.base_value, {wantf!r})\n")})
+        # arithmetic route: Unit objects multiplied / divided / raised must give the product of the constituents too
+        try:
+            ua = None
+            for j, (nm, e) in enumerate(arith):
+                f = Unit(nm)
+                if e < 0 and j > 0 and rng.random() < 0.5:
+                    ua = ua / f ** sympy.Rational(-e.numerator, e.denominator)
+                    continue
+                f = f if e == 1 else f ** sympy.Rational(e.numerator, e.denominator)
+                ua = f if ua is None else ua * f
+            chk.count("compound-arith")
+            if not (math.isclose(ua.base_value, wantf_units, rel_tol=1e-11) and ua.dimensions == wdim):
+                expr_py = " * ".join(f"Unit({nm!r})**sympy.Rational({e.numerator},{e.denominator})" for nm, e in arith)
+                chk.fail("compound-arith-scale", f"unit arithmetic {arith}: scale {ua.base_value!r} differs from the product of the constituents ({wantf_units!r})",
+                         {"python": snippet(f"u = {expr_py}\nassert math.isclose(u.base_value, {wantf_units!r}, rel_tol=1e-11), (u.base_value, {wantf_units!r})\n")})
+        except Exception as e_:  # noqa: BLE001  (offset / logarithmic guards refuse: C05's subject)
+            chk.count("compound-arith-refused:" + core.exc_name(e_))
         try:
             c, fac = gen.expr_wire(u.expr)
             lines.append(f"unit\t0\t{c}\t{fac}")
